@@ -107,12 +107,12 @@ theorem getTier_absent {g : Tg Int} {n : String} (hn : n ∉ g.names) : g.getTie
 
 /-! ## tier level: what `new`, `editTimestamps` and the concatenation do to well-formed tiers -/
 
-theorem inew_span (t : ITier Int) (hp : Pos t.es) (hd : Disj t.es) (hs : Stripped t.es) (lo hi : Int) :
+theorem inew_span (t : ITier Int) (hp : Pos t.es) (hd : Disj t.es) (hs : Stripped t.es) (lo hi : Int) (hlh : lo ≤ hi) :
     t.new (lo := some lo) (hi := some hi) =
       .ok ⟨t.name, t.es, hullMin (t.es.map (·.s)) lo, hullMax (t.es.map (·.e)) hi⟩ := by
   unfold ITier.new
   simp only [Option.getD_none, Option.getD_some]
-  exact mkITier_of_wf t.name t.es lo hi hp hd hs
+  exact mkITier_of_wf t.name t.es lo hi hlh hp hd hs
 
 /-- `tier.new(minTimestamp=lo, maxTimestamp=hi)` followed by `editTimestamps(o)` on a well-formed interval tier none
 of whose entries would be moved below 0: the entries moved by `o` (the intermediate span does not matter later) -/
